@@ -300,7 +300,11 @@ impl PeerHandler {
             }
             BroadCmd::SendOwnState { am_choked_map } => {
                 match am_choked_map.get(&self.connection.addr) {
-                    Some(true) => self.connection.send_msg(&Choke::new()).await?,
+                    Some(true) => {
+                        // Choked peer must ask manager again, cached piece is not served any more
+                        self.piece_tx = None;
+                        self.connection.send_msg(&Choke::new()).await?
+                    }
                     Some(false) => self.connection.send_msg(&Unchoke::new()).await?,
                     None => (),
                 }
